@@ -177,6 +177,13 @@ theorem thiele_model_same_molecule (m : Mol) (sssr : List (List Nat)) (r : Bool)
   · unfold brutto Valence.implicitTotal; rw [ha]
   · unfold molecularCharge; rw [ha]
 
+/-- … every bond of the input is still there and is unchanged, single or aromatic (the model never writes anything
+    but "single" and "aromatic") -/
+theorem thiele_model_bonds (m : Mol) (sssr : List (List Nat)) (r : Bool) (t : Mol)
+    (h : thieleNoFix m sssr = some (r, t)) (n k : Nat) (b : Bond) (hb : m.bond? n k = some b) :
+    ∃ b', t.bond? n k = some b' ∧ (b'.order = b.order ∨ b'.order = 1 ∨ b'.order = 4) :=
+  thieleNoFix_bonds m sssr r t h n k b hb
+
 /-- … and answers `False` only together with the unchanged molecule (the default `thiele()` violates exactly this on
     the inputs of the known finding `thiele-false-but-changed`) -/
 theorem thiele_model_false_unchanged (m : Mol) (sssr : List (List Nat)) (t : Mol)
